@@ -5,7 +5,7 @@
 
 package parser
 
-//@ props C01 C10
+//@ props C01 C10 C08
 
 //@ wf elems
 //@ default opaque
@@ -109,6 +109,16 @@ package parser
 // here-document operators whose delimiter word was delivered.  One too many
 // and pop() waits for ever (C01); one too few and a body is lexed as commands
 // (C07, C08).
+// The queue of here-document redirections is first-in first-out: push adds
+// at the end, pop takes the front.  (Sequential reading: what the parser
+// goroutine pushes while pop waits on the channel is not modelled.)
+//@ func (*heredoc).push
+//@   ensures[C08] appended-at-end: len(h.stack) == old(len(h.stack)) + 1 && h.stack[len(h.stack)-1] == r
+//@   ensures[C08] rest-unchanged: forall j: 0 <= j && j < old(len(h.stack)) ==> h.stack[j] == old(h.stack[j])
+//@ func (*heredoc).pop
+//@   ensures[C08] takes-the-front: result != nil ==> old(len(h.stack)) >= 1 && result == old(h.stack[0]) && len(h.stack) == old(len(h.stack)) - 1 && (forall j: 0 <= j && j < len(h.stack) ==> h.stack[j] == old(h.stack[j+1]))
+//@   ensures[C08] nothing-taken: result == nil ==> h.stack == old(h.stack) && h.n == 0
+//@   ensures[C01 C08] one-less-pending: result != nil ==> old(h.n) >= 1 && h.n == old(h.n) - 1
 //@ func (*heredoc).inc
 //@   ensures old(h.n) < 4294967295 ==> h.n == old(h.n) + 1
 //@ func (*lexer).scanRedir
@@ -189,6 +199,11 @@ package parser
 // Here-document bodies are read with no token pending, and each body ends
 // with the pending word handed over to its redirection.
 //@ func (*lexer).lexHeredoc
+//@   loop "for _, w := range h.Word" invariant[C08] quoted-so-far: quoted == (exists j: 0 <= j && j <= rangeindex && h.Word[j] is *ast.Quote)
+//@   assert[C08] at call parser.(*lexer).scanParamExp: body-expanded-only-if-unquoted: !quoted
+//@   assert[C08] at call parser.(*lexer).scanCmdSubst: body-expanded-only-if-unquoted: !quoted
+//@   assert[C08] at call parser.(*lexer).esc: body-expanded-only-if-unquoted: !quoted
+//@   assert[C08] at call parser.(*lexer).print: quoted-iff-delimiter-has-quoted-part: quoted == (exists j: 0 <= j && j < len(h.Word) && h.Word[j] is *ast.Quote)
 //@   requires len(l.word) == 0
 //@   loop "for h := l.heredoc.pop(); h != nil; h = l.heredoc.pop()" invariant len(l.word) == 0
 
@@ -205,7 +220,12 @@ package parser
 //@   ensures[C10] slot-holds-the-read-error: old(l.err) == nil && l.err != nil ==> l.err == result1
 //@   loop "for i := len(l.aliases) - 1; i >= 0; i--" invariant i < len(l.aliases)
 
+// find splits what was read into body and delimiter line without losing a
+// part: the body is everything before the delimiter line.
 //@ func (*lexer).lexHeredoc$1
+//@   requires r != nil
+//@   ensures[C08] partition: result ==> r.Heredoc == old(l.word)[:i] && r.Delim == old(l.word)[i:] && 0 <= i && i < old(len(l.word)) && len(l.word) == 0
+//@   ensures[C08] nothing-moved: !result ==> l.word == old(l.word)
 //@   loop "for i := len(l.word) - 1; i >= 0; i--" invariant i < len(l.word)
 
 // The nested parse of a command substitution returned without an error: the
@@ -264,3 +284,9 @@ package parser
 //@   waive wf "ast.FuncDef established" Name is filled in by the func_def action, which is checked to establish the invariant
 //@ action func_body: compound_cmd redir_list
 //@   waive wf "ast.FuncDef established" Name is filled in by the func_def action, which is checked to establish the invariant
+
+// A here-document redirection is queued, at the end, by the reduction that
+// builds it: the queue order is the order of the operators in the source.
+//@ action io_here: here_op WORD
+//@   ensures[C08] queued-at-end: len(yylex.(*lexer).heredoc.stack) == old(len(yylex.(*lexer).heredoc.stack)) + 1 && yylex.(*lexer).heredoc.stack[len(yylex.(*lexer).heredoc.stack)-1] == result.node.(*ast.Redir)
+//@   ensures[C08] carries-operator-and-delimiter: result.node.(*ast.Redir).Word == $2.word && result.node.(*ast.Redir).Op == $1.token.val && result.node.(*ast.Redir).OpPos == $1.token.pos
